@@ -2,8 +2,8 @@
 # Development aid: run every registered quick (or thorough) command at several seeds and log exit codes.
 # usage: tools/quiet.sh "<seeds>" [quick|thorough] [budget_s] [ids...]
 cd "$(dirname "$0")/.."
-SEEDS=${1:-"1 2 3"}; TIER=${2:-quick}; BUDGET=${3:-}; shift 3 2>/dev/null
-IDS=${@:-C01 C02 C03 C04 C05 C06 C07 C08 C09 C10 C11 C12 C13 C14 C15 C16 C17 C18 C19 C20}
+SEEDS=${1:-"1 2 3"}; TIER=${2:-quick}; BUDGET=${3:-}
+IDS=${4:-C01 C02 C03 C04 C05 C06 C07 C08 C09 C10 C11 C12 C13 C14 C15 C16 C17 C18 C19 C20}
 for s in $SEEDS; do for c in $IDS; do
   t0=$(date +%s)
   out=$(VERIF_SEED=$s VERIF_BUDGET_S=$BUDGET SUIT_GENERATOR_VERIF=1 PYTHONHASHSEED=${PYHS:-} /venv/bin/python -m vf.run $c --tier $TIER 2>&1); code=$?
